@@ -458,7 +458,13 @@ func rowRequestVertexPipeline(ctx context.Context, prefix string,
 			}
 		}()
 	} else {
-		log.Error("Error opening streaming connection") //BUG: deal with this!!!
+		//no stream (the traversal may already be cancelled): nothing is answered, the requests are discarded
+		log.Error("Error opening streaming connection")
+		close(out)
+		go func() {
+			for range rowIn {
+			}
+		}()
 	}
 	return in, out
 }
